@@ -43,3 +43,24 @@ func Symbolic() bool
 
 // LocksHeld returns the number of sync mutexes currently held.
 func LocksHeld() int
+
+// Emit records a line of concrete output (translator validation harnesses).
+func Emit(s string)
+
+// Hex returns the hex text of concrete bytes.
+func Hex(b []byte) string
+
+// Param returns the integer harness parameter name (from //gosx:p.name=N) or def.
+func Param(name string, def int) int
+
+// BytesEq reports whether a and b have the same length and contents.
+func BytesEq(a, b []byte) bool
+
+// Equal is deep equality that identifies nil and empty slices and compares
+// pointers by pointee.
+func Equal(a, b interface{}) bool
+
+// And / Or / Implies evaluate both operands (no short-circuit fork).
+func And(a, b bool) bool
+func Or(a, b bool) bool
+func Implies(a, b bool) bool
